@@ -57,8 +57,11 @@ def monitored(fn, *a, **kw) -> Step:
             return Step(None, e, w)
 
 
+IGNORED_WARNING_CATEGORIES = (DeprecationWarning, PendingDeprecationWarning, ResourceWarning, ImportWarning, BytesWarning)
+
+
 def lib_warnings(step_or_list):
-    """Warnings that originate from the library (UserWarning category raised with warnings.warn default),
-    ignoring Python's own Deprecation/Resource warnings."""
+    """Warnings attributable to the library's own logic: any category except Python's housekeeping ones
+    (the category a library warning uses is not part of any property)."""
     ws = step_or_list.warnings if isinstance(step_or_list, Step) else step_or_list
-    return [w for w in ws if issubclass(w.category, UserWarning)]
+    return [w for w in ws if not issubclass(w.category, IGNORED_WARNING_CATEGORIES)]
